@@ -4,6 +4,7 @@ package main
 
 import (
 	"fmt"
+	"sort"
 	"strings"
 	"time"
 )
@@ -23,6 +24,7 @@ type vfC14Kind struct {
 	Mint   func(m *vfMintCtx)
 	JWKS   func(p *vfIdP) []byte
 	UInfo  func(c map[string]interface{})
+	Need   string // must-reject applies only when the ID token lacks this claim (the profile endpoint is its only source)
 }
 
 func vfAllFlows() map[string]bool { return map[string]bool{"*": true} }
@@ -42,6 +44,36 @@ func vfC14Kinds() []vfC14Kind {
 	tok("no-id-token", loginOnly, func(m *vfMintCtx) { m.OmitID = true })
 	tok("no-access-token", nil, func(m *vfMintCtx) { m.After = func(r map[string]interface{}) { delete(r, "access_token") } })
 	tok("expires-in-garbage", nil, func(m *vfMintCtx) { m.After = func(r map[string]interface{}) { r["expires_in"] = "soon" } })
+	// "missing fields": every non-empty subset of the token response's members omitted together (each omission
+	// alone may be harmless where a combination is not)
+	fields := []string{"id_token", "expires_in", "refresh_token", "token_type", "access_token"}
+	for mask := 1; mask < 1<<len(fields); mask++ {
+		var om []string
+		for i, f := range fields {
+			if mask&(1<<i) != 0 {
+				om = append(om, f)
+			}
+		}
+		if len(om) == 1 && (om[0] == "id_token" || om[0] == "access_token") {
+			continue // covered by the named kinds above
+		}
+		rej := map[string]bool(nil)
+		if mask&1 != 0 {
+			rej = loginOnly
+		}
+		omit := om
+		tok("omit:"+strings.Join(om, "+"), rej, func(m *vfMintCtx) {
+			m.After = func(r map[string]interface{}) {
+				for _, f := range omit {
+					delete(r, f)
+				}
+			}
+		})
+	}
+	tok("expires-in-negative", nil, func(m *vfMintCtx) { m.After = func(r map[string]interface{}) { r["expires_in"] = -5 } })
+	tok("expires-in-huge", nil, func(m *vfMintCtx) { m.After = func(r map[string]interface{}) { r["expires_in"] = 1e18 } })
+	tok("token-type-number", nil, func(m *vfMintCtx) { m.After = func(r map[string]interface{}) { r["token_type"] = 7 } })
+	tok("refresh-token-object", nil, func(m *vfMintCtx) { m.After = func(r map[string]interface{}) { r["refresh_token"] = map[string]interface{}{"a": 1} } })
 	tok("id-token-number", loginOnly, func(m *vfMintCtx) { m.Resp["id_token"] = 12345 })
 	tok("id-token-garbage", all, func(m *vfMintCtx) { m.Resp["id_token"] = "abc.def.ghi" })
 	tok("wrong-key", all, func(m *vfMintCtx) { m.Sign.Key = 3 })
@@ -75,7 +107,15 @@ func vfC14Kinds() []vfC14Kind {
 	ks = append(ks, vfC14Kind{Name: "jwks-empty", On: "jwks", Reject: all, JWKS: func(p *vfIdP) []byte { return []byte(`{"keys":[]}`) }})
 	ks = append(ks, vfC14Kind{Name: "jwks-wrong-types", On: "jwks", Reject: all, JWKS: func(p *vfIdP) []byte { return []byte(`{"keys":[{"kty":7,"kid":[1]}, "x", null]}`) }})
 	ks = append(ks, vfC14Kind{Name: "jwks-array", On: "jwks", Reject: all, JWKS: func(p *vfIdP) []byte { return []byte(`[1,2,3]`) }})
-	ks = append(ks, vfC14Kind{Name: "userinfo-no-email", On: "userinfo", Reject: all, UInfo: func(c map[string]interface{}) { delete(c, "email"); delete(c, "account") }})
+	ks = append(ks, vfC14Kind{Name: "userinfo-no-email", On: "userinfo", Reject: all, Need: "email", UInfo: func(c map[string]interface{}) { delete(c, "email"); delete(c, "account") }})
+	ks = append(ks, vfC14Kind{Name: "userinfo-email-unverified", On: "userinfo", Reject: map[string]bool{"login-profile": true}, Need: "email_verified", UInfo: func(c map[string]interface{}) { c["email_verified"] = false }})
+	ks = append(ks, vfC14Kind{Name: "userinfo-email-verified-number", On: "userinfo", UInfo: func(c map[string]interface{}) { c["email_verified"] = 0 }})
+	ks = append(ks, vfC14Kind{Name: "userinfo-groups-object", On: "userinfo", UInfo: func(c map[string]interface{}) { c["groups"] = map[string]interface{}{"a": []int{1}} }})
+	ks = append(ks, vfC14Kind{Name: "userinfo-all-null", On: "userinfo", UInfo: func(c map[string]interface{}) {
+		for k := range c {
+			c[k] = nil
+		}
+	}})
 	ks = append(ks, vfC14Kind{Name: "userinfo-email-number", On: "userinfo", UInfo: func(c map[string]interface{}) { c["email"] = 42 }})
 	ks = append(ks, vfC14Kind{Name: "userinfo-email-object", On: "userinfo", UInfo: func(c map[string]interface{}) {
 		c["email"] = map[string]interface{}{"x": 1}
@@ -88,7 +128,7 @@ func vfC14Kinds() []vfC14Kind {
 
 type vfC14Case struct {
 	Flow, Provider, Store string
-	Calls                 []string
+	Calls, Lacks          []string
 	Iterations            int
 	Kinds                 int
 	MustReject            int
@@ -101,7 +141,7 @@ func vfC14(w *vfWorld) {
 	cfg.Store = vfPick(t, "c14.store", []string{"cookie", "redis"})
 	cfg.CookieRefresh, cfg.CookieExpire = 10*time.Minute, 6*time.Hour
 	cfg.Extra = append(cfg.Extra, "--pass-access-token=true", "--set-xauthrequest=true", "--skip-jwt-bearer-tokens=true")
-	flows := []string{"login", "login-profile", "bearer", "refresh", "plain-login", "plain-stale"}
+	flows := []string{"login", "login-profile", "bearer", "refresh", "plain-login", "plain-stale", "refresh-profile"}
 	flow := flows[t.Choice("c14.flow", len(flows))]
 	if strings.HasPrefix(flow, "plain") {
 		cfg.Provider = "plain"
@@ -121,12 +161,29 @@ func vfC14(w *vfWorld) {
 	rep := reps[0]
 	pp := cfg.ProxyPrefix
 	user := "alice"
-	if flow == "login-profile" {
-		// the ID token lacks the e-mail claim -> the profile endpoint is consulted
-		user = "dave"
-		idp.Mint = nil
+	lacks := map[string]bool{}
+	if strings.HasSuffix(flow, "-profile") {
+		// the ID token lacks some of the claims the session is built from -> the profile endpoint is their only
+		// source; every non-empty subset of {email, email_verified, groups, preferred_username}
+		if t.Prob("c14.dave", 300) {
+			user = "dave"
+		}
+		pc := []string{"email", "email_verified", "groups", "preferred_username"}
+		mask := 1 + t.Choice("c14.lacks", 15)
+		if t.Bool("c14.lacks-one") {
+			mask = 1 << t.Choice("c14.lacks-which", 4) // a single claim: the other lookups cannot mask this one's failure
+		}
+		for i, c := range pc {
+			if mask&(1<<i) != 0 {
+				lacks[c] = true
+			}
+		}
 	}
 	cs := &vfC14Case{Flow: flow, Provider: cfg.Provider, Store: cfg.Store}
+	for c := range lacks {
+		cs.Lacks = append(cs.Lacks, c)
+	}
+	sort.Strings(cs.Lacks)
 	w.sample = cs
 
 	var curMint func(m *vfMintCtx)
@@ -135,9 +192,10 @@ func vfC14(w *vfWorld) {
 			m.Claims[audClaim] = []string{"someone-else", vfClientID}
 			delete(m.Claims, "aud")
 		}
-		if flow == "login-profile" && m.Claims != nil {
-			delete(m.Claims, "email")
-			delete(m.Claims, "email_verified")
+		if m.Claims != nil {
+			for c := range lacks {
+				delete(m.Claims, c)
+			}
 		}
 		if curMint != nil {
 			curMint(m)
@@ -171,7 +229,7 @@ func vfC14(w *vfWorld) {
 				}
 			})
 			return true
-		case "refresh", "plain-stale":
+		case "refresh", "refresh-profile", "plain-stale":
 			if !login(b) {
 				return false
 			}
@@ -317,6 +375,9 @@ func vfC14(w *vfWorld) {
 				}
 				w.nontriv = true
 				mustReject := kd.Reject["*"] || kd.Reject[flow]
+				if kd.Need != "" && !lacks[kd.Need] {
+					mustReject = false
+				}
 				if calls[k].Endpoint == "plain:validate" {
 					// the validate URL is judged by its status line only: any 200 means "token valid"
 					switch kd0.Fault.Kind {
@@ -343,7 +404,7 @@ func vfC14(w *vfWorld) {
 						if served(r) {
 							w.violate("C14", "served-after-failed-validation", kd.Name, "%s: stale session served although the validation call failed", label)
 						}
-					case "refresh":
+					case "refresh", "refresh-profile":
 						// falling back to the still-valid old ID token is allowed; adopting anything from the
 						// rejected response is not
 						for _, h := range r.UpHits {
